@@ -177,6 +177,15 @@ class Session:
             for e in effs:
                 if not w.py_compatible(e.fluent.type, e.value.type):
                     bad.append("effect-value")
+        # read the initial state back through the public API: what a fluent is given must fit the fluent
+        for f in p.fluents:
+            if f.arity == 0:
+                v = p.initial_value(f())
+                if v is not None and not (v.is_constant() and w.py_compatible(f.type, v.type)):
+                    bad.append("initial_value(f)-readback")
+        for k, v in p.initial_values.items():
+            if not (v.is_constant() and w.py_compatible(k.type, v.type)):
+                bad.append("initial_values-readback")
         for ai in self.instances:
             for prm, v in zip(ai.action.parameters, ai.actual_parameters):
                 if not (v.is_constant() and w.py_compatible(prm.type, v.type)):
@@ -325,6 +334,35 @@ def gen_ops(w, rng, quick):
     return ops
 
 
+def gen_hierarchy_sessions(w):
+    """Per-type defaults across the type hierarchy (both tiers, deterministic): a default given for a supertype / a subtype /
+    a sibling / an unrelated or differently bounded numeric type of the fluents added afterwards.  Every session adds a
+    fluent of EVERY target type without an explicit default (in two orders), then some with explicit defaults."""
+    l1, s1, r1 = w.objects
+    dicts = [
+        [(7, l1)], [(7, s1)], [(8, s1)], [(9, r1)], [(7, l1), (8, s1)], [(7, l1), (9, r1)], [(8, s1), (9, r1)],
+        [(7, s1), (8, s1), (9, r1)],
+        [(1, 5)], [(2, 5)], [(3, 5)], [(4, 0)], [(4, Fraction(1, 2))], [(5, Fraction(1, 2))], [(6, -3)], [(0, True)],
+        [(1, 5), (4, Fraction(1, 2)), (0, False), (7, l1)],
+    ]
+    nT = len(w.types)
+    out = []
+    for ds in dicts:
+        for order in (list(range(nT)), list(reversed(range(nT)))):
+            ops, k = [], 50000
+            for ti in order:
+                k += 1
+                ops.append(("add_fluent", k, ti, ("none",)))
+            for ti, v in ((8, s1), (7, s1), (8, l1), (2, 5), (5, 3)):
+                k += 1
+                ops.append(("add_fluent", k, ti, ("val", v)))
+            for ti in order[:4]:
+                k += 1
+                ops.append(("add_fluent", k, ti, ("none",)))
+            out.append((ds, ops))
+    return out
+
+
 def gen_defaults(w, rng, quick):
     """Constructor arguments: every single (type, value) pair, and a few valid multi-entry dictionaries."""
     T = [t for _, t in w.types]
@@ -399,6 +437,8 @@ def run(ctx):
     singles, valid = gen_defaults(w, rng, ctx.quick)
     for ds in singles:
         run_session(ds, [])                                  # the constructor matrix: every value against every type
+    for ds, ops in gen_hierarchy_sessions(w):
+        run_session(ds, ops)                                 # per-type defaults across the type hierarchy
     passes = 1 if ctx.quick else 6
     for ps in range(passes):
         ops = gen_ops(w, rng, ctx.quick)
